@@ -56,7 +56,9 @@ MODULE = "vt.props.c13_bounded"
 MAX_VIOLATIONS = 5
 P61 = 2**61 - 1  # hash(n) == hash(n + P61) for small ints
 
-APIS = ("einsum", "array_contract", "array_contract_path", "array_contract_tree", "array_contract_expression", "einsum_expression")
+# ".../size_dict": the same function given size_dict= (in the spec's own key order) instead of shapes=
+APIS = ("einsum", "array_contract", "array_contract_path", "array_contract_tree", "array_contract_expression", "einsum_expression",
+        "array_contract_path/size_dict", "array_contract_expression/size_dict")
 
 
 # --------------------------------------------------------------------------
@@ -262,8 +264,9 @@ def _call(api, spec, cached, seed_arr):
             elif api == "array_contract":
                 r = ctg.array_contract(arrays, ins, out, optimize=opt, cache_expression=cached, canonicalize=canon, **kw)
                 obs["value"] = _norm_value(r)
-            elif api == "array_contract_path":
-                r = ctg.array_contract_path(ins, out, shapes=shapes, optimize=opt, canonicalize=canon, cache=cached)
+            elif api in ("array_contract_path", "array_contract_path/size_dict"):
+                skw = {"shapes": shapes} if api == "array_contract_path" else {"size_dict": _used_sizes(ins, out, sizes)}
+                r = ctg.array_contract_path(ins, out, optimize=opt, canonicalize=canon, cache=cached, **skw)
                 obs["path"] = tuple(tuple(int(i) for i in c) for c in r)
                 obs["path_valid"] = _valid_path(r, n)
             elif api == "array_contract_tree":
@@ -276,9 +279,12 @@ def _call(api, spec, cached, seed_arr):
                     obs["path_valid"] = _valid_path(t.get_path(), n)
                     ckw = {k: v for k, v in kw.items() if k in ("strip_exponent", "implementation", "prefer_einsum")}
                     obs["value"] = _norm_value(t.contract(arrays, **ckw))
-            elif api in ("array_contract_expression", "einsum_expression"):
+            elif api in ("array_contract_expression", "einsum_expression", "array_contract_expression/size_dict"):
                 if api == "array_contract_expression":
                     ex = ctg.array_contract_expression(ins, out, shapes=shapes, optimize=opt, canonicalize=canon, cache=cached, **kw)
+                elif api == "array_contract_expression/size_dict":
+                    ex = ctg.array_contract_expression(ins, out, size_dict=_used_sizes(ins, out, sizes), optimize=opt,
+                                                       canonicalize=canon, cache=cached, **kw)
                 else:
                     ex = ctg.einsum_expression(_eq_of(spec), *shapes, optimize=opt, cache=cached, **kw)
                 obs["fingerprint"] = _fp(ex)
@@ -289,6 +295,12 @@ def _call(api, spec, cached, seed_arr):
     except Exception as e:  # noqa: BLE001
         obs = {"api": api, "raised": type(e).__name__, "msg": str(e)[:160]}
     return obs
+
+
+def _used_sizes(ins, out, sizes):
+    """size_dict restricted to the labels that occur, in the spec's own key order"""
+    used = [ix for t in ins for ix in t] + list(out)
+    return {k: v for k, v in sizes.items() if any(k == u for u in used)}
 
 
 def _size_multiset(ins, sizes):
@@ -439,6 +451,13 @@ def pools(tier="quick"):
     # same tensors, different number of operands / scalar operand
     P["operand count"] = [mkspec(ins, out, S, "greedy"), mkspec(ins + ((),), out, S, "greedy"), mkspec(ins[:2], ("a", "c"), S, "greedy"),
                           mkspec(ins + (("d", "a"),), (), S, "greedy")]
+    # operand order / axis order inside a term (canonicalize=False keeps the labels as given)
+    A, B, C = ("a", "b"), ("b", "c", "d"), ("d", "a")
+    for canon in (False, True):
+        P[f"operand order (canonicalize={canon})"] = [mkspec(t, ("c",), S, "greedy", canonicalize=canon) for t in ((A, B, C), (B, A, C), (C, B, A), (A, C, B))]
+        P[f"axis order within a term (canonicalize={canon})"] = [
+            mkspec(t, ("a", "c"), S, "greedy", canonicalize=canon)
+            for t in ((("a", "b"), ("b", "c")), (("b", "a"), ("b", "c")), (("a", "b"), ("c", "b")), (("b", "a"), ("c", "b")))]
     if tier != "quick":
         ring = (("a", "b"), ("b", "c"), ("c", "d"), ("d", "a"))
         P["4-ring output/hyper variants"] = [mkspec(ring, o, S, "greedy") for o in ((), ("a",), ("a", "c"), ("c", "a"))]
@@ -485,7 +504,7 @@ def run_sequence(seq, cold_memo=None):
         before = (len(ci._PATH_CACHE), len(ci._CONTRACT_EXPR_CACHE))
         obs = _call(step["api"], step["spec"], True, 1000 + 0)
         after = (len(ci._PATH_CACHE), len(ci._CONTRACT_EXPR_CACHE))
-        if after == before and step["api"] != "array_contract_tree" and k > 0:
+        if after == before and step["api"] != "array_contract_tree" and k > 0:  # (rough evidence only)
             hits += 1
         kind = _check_obs(obs, colds[k], step["spec"], 1000)
         if kind is not None:
@@ -552,6 +571,7 @@ def _work_parsers(item):
     n = 0
     keys, viols = [], []
     fired = {}
+    clear_all()
 
     def bump(k):
         fired[k] = fired.get(k, 0) + 1
@@ -588,7 +608,7 @@ def _work_parsers(item):
                     got = cc.einsum(eq, *arrays)
                     if np.shape(got) != np.shape(ref) or not np.array_equal(got, ref):
                         bad(f"C13 cotengra.contract.einsum('{eq}') shapes {shapes} (call {_rep + 1}): value differs", case, "")
-                    got = ctg.einsum(eq, *arrays, implementation="cotengra")
+                    got = ctg.einsum(eq, *arrays, implementation="cotengra", cache_expression=False)
                     if np.shape(got) != np.shape(ref) or not np.array_equal(got, ref):
                         bad(f"C13 cotengra.einsum('{eq}') shapes {shapes} (call {_rep + 1}): value differs", case, "")
                 r2 = fn(*args)
@@ -605,7 +625,7 @@ def _work_parsers(item):
                     c1 = f2(*a2)
                     s1 = _deep(c1)
                     f2("ab...,...bc", ((2, 3, 2), (2, 3, 2)), tuples)
-                    ctg.einsum(eq, *arrays)
+                    ctg.einsum(eq, *arrays, cache_expression=False)
                     c2 = f2(*a2)
                     if s1 != fr or _deep(c2) != s1 or _deep(c1) != s1:
                         bad(f"C13 parse_equation_ellipses{a2}: cached value differs / mutated", case, f"{c1} {c2} {fr}")
@@ -739,7 +759,7 @@ def run_bounded(rep: Report, tier: str) -> None:
         "output order, one size (chosen so that the optimal and greedy paths flip), optimize preset, explicit-path container "
         "types, different valid paths, strip_exponent / implementation / prefer_einsum / sort_contraction_indices, index "
         "relabelling with and without canonicalize, the canonicalize flag, labels -1/-2, 1/True/1.0, ints with colliding "
-        "hashes (n, n+2**61-1), tuple-vs-list containers, single-tensor fast paths, operand count. "
+        "hashes (n, n+2**61-1), tuple-vs-list containers, single-tensor fast paths, operand count, operand order, axis order. "
         "lru-cached parsers: cached == __wrapped__ result, stable across interleaved calls, not mutated by the executors."
     )
     rep.assumptions.append("'greedy', 'optimal', 'auto', 'auto-hq' are deterministic for these 2-4 tensor contractions (verified: cold paths are compared for equality, a flap would show as a violation)")
@@ -805,7 +825,7 @@ def _replay_parser(case):
             if snap != fresh:
                 return False, f"{fn.__name__}{args}: cached {snap} != uncached {fresh}"
             for rep_ in range(2):
-                for got in (cc.einsum(eq, *arrays), ctg.einsum(eq, *arrays, implementation="cotengra")):
+                for got in (cc.einsum(eq, *arrays), ctg.einsum(eq, *arrays, implementation="cotengra", cache_expression=False)):
                     if np.shape(got) != np.shape(ref) or not np.array_equal(got, ref):
                         return False, f"einsum('{eq}') shapes {shapes} call {rep_ + 1}: value differs from numpy"
             if _deep(fn(*args)) != snap or _deep(r1) != snap:
@@ -815,7 +835,7 @@ def _replay_parser(case):
                 fr = _deep(cu.parse_equation_ellipses.__wrapped__(*a2))
                 c1 = cu.parse_equation_ellipses(*a2)
                 s1 = _deep(c1)
-                ctg.einsum(eq, *arrays)
+                ctg.einsum(eq, *arrays, cache_expression=False)
                 if s1 != fr or _deep(cu.parse_equation_ellipses(*a2)) != s1 or _deep(c1) != s1:
                     return False, f"parse_equation_ellipses{a2}: cached value differs / mutated"
         except Exception as e:  # noqa: BLE001
